@@ -366,12 +366,9 @@ impl KeyValueStore {
                 Arc::clone(&state.mem_log),
             )
         };
-        let mut log_batch = sst::log::WriteBatch::default();
-        for entry in batch.entries.iter() {
-            log_batch.insert(KeyValueRef::from(entry))?;
-        }
-        self.poison(log.append(log_batch))?;
-        self.poison(memtable.write(&mut batch))?;
+        // NOTE(rescrv):  Whatever happens to the batch, leave the wait list the same way.  A writer
+        // that returned early would never wake the writer queued behind it.
+        let result = self.log_and_apply(&mut batch, &memtable, &log);
         drop(memtable);
         drop(log);
         let mut state = self.state.lock().unwrap();
@@ -380,7 +377,21 @@ impl KeyValueStore {
         }
         drop(wait_guard);
         self.wait_list.notify_head();
-        Ok(())
+        result
+    }
+
+    fn log_and_apply(
+        &self,
+        batch: &mut WriteBatch,
+        memtable: &MemTable,
+        log: &ConcurrentLogBuilder<File>,
+    ) -> Result<(), SError> {
+        let mut log_batch = sst::log::WriteBatch::default();
+        for entry in batch.entries.iter() {
+            log_batch.insert(KeyValueRef::from(entry))?;
+        }
+        self.poison(log.append(log_batch))?;
+        self.poison(memtable.write(batch))
     }
 
     pub fn load(&self, key: &[u8], is_tombstone: &mut bool) -> Result<Option<Vec<u8>>, SError> {
